@@ -198,7 +198,12 @@ func sliceShape(c godi.Collection) string {
 func TestC20Modules(t *testing.T) {
 	col := evid.New("C20", "module-tree-vs-flat", "module trees (depth<=5, fan-out<=5, repeated and empty names) whose leaves are Add*/Remove/RemoveKeyed entries over a tiny identity pool, nil entries and failing entries (duplicates, invalid options) at arbitrary positions; twin collections: A gets the tree through AddModules, B gets the flattened calls directly and stops at the first error; oracle: same error-or-not, A's error unwraps to ModuleErrors naming exactly the enclosing modules outermost first with the innermost cause classified and worded like B's error, identical Count/ToSlice/Contains*, identical Build verdict, canonical object graph and constructor counts; non-trivial = nesting>=2 with a failing or Remove entry that is not in first position")
 	defer col.Flush()
-	rapid.Check(t, func(rt *rapid.T) {
+	rapid.Check(t, propC20Modules(col))
+}
+
+// propC20Modules is the property of TestC20Modules; the native fuzz target of the same name decodes its input through it.
+func propC20Modules(col *evid.Collector) func(rt *rapid.T) {
+	return func(rt *rapid.T) {
 		var regs []kit.Reg
 		ntop := rapid.IntRange(1, 3).Draw(rt, "ntop")
 		var tops []*mnode
@@ -380,7 +385,7 @@ func TestC20Modules(t *testing.T) {
 			}
 			rt.Fatalf("VIOLATION %s\n%s", f, canon)
 		}
-	})
+	}
 }
 
 func renderObs(o *kit.Obs) string {
